@@ -1,3 +1,6 @@
+import json
+import zlib
+
 from inspect import getmodule
 from collections import abc
 from pathlib import Path
@@ -12,7 +15,7 @@ from coba.context import CobaContext, ExceptLog, StampLog, NameLog, DecoratedLog
 from coba.exceptions import CobaException
 from coba.multiprocessing import CobaMultiprocessor
 from coba.primitives import Learner, Environment, Evaluator
-from coba.utilities import PackageChecker
+from coba.utilities import PackageChecker, try_else
 
 from coba.experiments.process import MakeTasks, ChunkTasks, ProcessTasks
 
@@ -171,7 +174,7 @@ class Experiment:
 
         if result_file and Path(result_file).exists():
             CobaContext.logger.log("Restoring Results")
-            restored = Result.from_file(result_file)
+            restored = self._restore(result_file)
         else:
             restored = None
 
@@ -188,7 +191,7 @@ class Experiment:
         source    = DiskSource(result_file) if result_file else ListSource(sink.items)
         decode    = TransactionDecode()
         result    = TransactionResult()
-        preamble  = Identity() if restored else Insert([["T0",meta]])
+        preamble  = Identity() if restored and restored.experiment else Insert([["T0",meta]])
 
         try:
             lrn_mismatch = restored and n_given_lrns != restored.experiment.get('n_learners',n_given_lrns)
@@ -207,6 +210,39 @@ class Experiment:
         del CobaContext.store['experiment_seed']
 
         return Pipes.join(source,decode,result).read()
+
+    def _restore(self, result_file:str) -> Optional[Result]:
+        #An interrupted run can leave a final record that was only partly written (for gz files a partly
+        #written member). We keep the complete records and, if anything else is in the file, rewrite the
+        #file so it only holds them. Without this new records would be appended to the partial record.
+
+        is_record = lambda line: try_else(lambda: isinstance(json.loads(line),list), False)
+        lines,clean = [],True
+
+        try:
+            for line in DiskSource(result_file).read():
+                if line.strip(): lines.append(line)
+        except (EOFError,OSError,zlib.error):
+            clean = False
+
+        while lines and not is_record(lines[-1]):
+            lines.pop()
+            clean = False
+
+        if clean and ".gz" not in result_file:
+            with open(result_file,'rb') as f:
+                size = f.seek(0,2)
+                if size > 0:
+                    f.seek(size-1)
+                    clean = f.read(1) == b'\n'
+
+        if not clean:
+            partial_file = f"{result_file}.partial"
+            Path(partial_file).unlink(missing_ok=True)
+            DiskSink(partial_file).write(lines)
+            Path(partial_file).replace(result_file)
+
+        return Result.from_source(ListSource(lines)) if lines else None
 
     def _parse_init_args(self,*args,**kwargs) -> Tuple[Sequence[Tuple[Environment,Learner]], Evaluator, Optional[str]]:
         #we know this with 100% certainty
